@@ -468,6 +468,7 @@ def _values(info, raw, pos, enc, ptype, n, dictionary, tlen, where, v2):
         if ptype not in ("INT32", "INT64"):
             raise Unsupported("DELTA_BINARY_PACKED for %s" % ptype)
         vals, p2, dinfo = E.delta_decode(raw, pos, 32 if ptype == "INT32" else 64)
+        info.notes.append(("DELTA_WIDTH", where, max(dinfo["widths"] or [0])))
         if len(vals) != n:
             info.diag("NUM_VALUES", where, "delta block carries %d values, page needs %d" % (len(vals), n))
         return vals[:n] + [None] * (n - len(vals)), p2
